@@ -49,7 +49,9 @@ RULE = ("random rule systems of the engine generator (harness/rules.py: int/floa
         "further requests at the same period, across store settings), 'eternal' (eternal variables with both an "
         "input and a formula, calculated at dated periods, memory vs disk with/without priority), 'enum' (oracle "
         "only, no engine model: Enum variables over 130-200 members, inputs/defaults/results with indices >= 128, "
-        "every request repeated, all configurations, answers also compared with the program's meaning); "
+        "every request repeated, all configurations, answers also compared with the program's meaning), 'float' "
+        "(oracle only: float inputs with -0.0/0.0/inf/NaN overwritten on the same variable and period, memory vs "
+        "disk, answers compared bit for bit); "
         "a case is non-trivial when a formula ran and at least one non-plain configuration skipped a store, used the "
         "disk or recorded a trace node with children; distinct by JSON text")
 TRUSTED = ["harness/rules.py: compiler from rule-system terms to real Variable subclasses (formulas call the public API)",
@@ -106,6 +108,8 @@ def gen_one(rng, k):
     stream = {6: "spiral", 3: "mutating", 1: "threshold", 5: "delete", 8: "chain", 7: "eternal"}.get(k % 9, "claimed")
     if k % 18 == 4:
         return enum_case(rng)
+    if k % 18 == 13:
+        return float_case(rng)
     case = rules.gen_case(rng, SPIRAL_PROFILE if stream == "spiral" else PROFILE)
     case.pop("cfg", None)
     sys, reqs = case["sys"], case["requests"]
@@ -551,6 +555,144 @@ def enum_oracle(case, obs):
     return None
 
 
+# ---------------------------------------------------------------------------------------
+# oracle-only stream: float inputs with signed zeros and infinities overwritten, memory vs disk
+# ---------------------------------------------------------------------------------------
+
+def _canon(x):
+    x = float(x)
+    return "nan" if x != x else x.hex()          # the hex form keeps the sign of zero
+
+
+def float_case(rng):
+    """x: float input of a month; y = copysign(1, x) (the sign of a zero becomes +-1); z = x * 1 (a
+    cached copy).  The same (variable, period) is written several times - set_input again, or an
+    input over a cached default - with arrays that differ from the stored one only in the sign of
+    a zero, or not at all, or in other entries (+-inf, NaN, numbers); then x, y, z are read.  All
+    configurations store what the plain one stores (memory or disk, priority or not, traced or
+    not), so every answer must be bit for bit the plain run's; a direct read of x is the last
+    array written."""
+    count = rng.randint(1, 5)
+    ps = rng.sample(["2019-01", "2019-02", "2020-07"], rng.randint(1, 3))
+    special = [0.0, -0.0, 0.0, -0.0, float("inf"), float("-inf"), 1.5, -2.25, 0.0, float("nan")]
+    steps = []
+    for p in ps:
+        a = [rng.choice(special) for _ in range(count)]
+        if rng.random() < 0.3:
+            steps.append(["calc", rng.choice(["x", "z", "y"]), p])       # the default gets cached first
+            if rng.random() < 0.5:
+                a = [rng.choice([0.0, -0.0]) for _ in range(count)]      # an input equal (==) to the cached default
+        steps.append(["set", p, [_canon(v) for v in a]])
+        if rng.random() < 0.4:
+            steps.append([rng.choice(["calc", "get"]), "x", p])
+        for _ in range(rng.randint(1, 2)):
+            kind = rng.random()
+            if kind < 0.6:
+                b = [(-v if v == 0 and rng.random() < 0.7 else v) for v in a]          # zeros change sign
+            elif kind < 0.75:
+                b = list(a)
+            else:
+                b = [rng.choice(special) if rng.random() < 0.5 else v for v in a]
+            steps.append(["set", p, [_canon(v) for v in b]])
+            a = b
+        reads = [["calc", "x", p], ["calc", "y", p], ["calc", "z", p], ["get", "x", p]]
+        rng.shuffle(reads)
+        steps += reads[:rng.randint(2, 4)]
+    cfgs = [{}, {"disk": True}, {"disk": True, "priority": ["x"]}, {"disk": True, "priority": ["y", "z"]},
+            {"disk": True, "trace": True}, {"trace": True}]
+    return {"kind": "float", "stream": "float", "count": count, "requests": steps, "cfgs": cfgs,
+            "sys": {"vars": []}, "pop": {}}
+
+
+def float_system():
+    from openfisca_core.entities import build_entity
+    from openfisca_core.taxbenefitsystems import TaxBenefitSystem
+    from openfisca_core.variables import Variable
+    person = build_entity(key="person", plural="persons", label="", is_person=True)
+    base = {"entity": person, "definition_period": rules.UNIT_OBJ["month"], "value_type": float}
+
+    def f_y(person, period):
+        return numpy.copysign(numpy.float32(1), person("x", period))
+
+    def f_z(person, period):
+        return person("x", period) * numpy.float32(1)
+
+    tbs = TaxBenefitSystem([person])
+    for name, extra in (("x", {}), ("y", {"formula": f_y}), ("z", {"formula": f_z})):
+        tbs.add_variable(type(name, (Variable,), dict(base, **extra)))
+    return tbs
+
+
+def configure_free(sim, tbs, cfg):
+    from openfisca_core.experimental import MemoryConfig
+    if cfg.get("disk") or cfg.get("drop"):
+        sim.memory_config = MemoryConfig(max_memory_occupation=0 if cfg.get("disk") else 1,
+                                         priority_variables=cfg.get("priority", []),
+                                         variables_to_drop=cfg.get("drop", []))
+        if not cfg.get("disk"):
+            sim.memory_config.max_memory_occupation_pc = 1000
+    if cfg.get("blacklist"):
+        tbs.cache_blacklist = set(cfg["blacklist"])
+    if cfg.get("opt_out"):
+        sim.opt_out_cache = True
+    if cfg.get("trace"):
+        sim.trace = True
+
+
+def cleanup_free(sim):
+    d = getattr(sim, "_data_storage_dir", None)
+    if d:
+        for pop_ in sim.populations.values():
+            for h in pop_._holders.values():
+                if h._disk_storage:
+                    h._disk_storage.preserve_storage_dir = True
+        shutil.rmtree(d, ignore_errors=True)
+
+
+def run_float_cfg(case, cfg):
+    from openfisca_core.simulations import SimulationBuilder
+    tbs = float_system()
+    sim = SimulationBuilder().build_default_simulation(tbs, count=case["count"])
+    configure_free(sim, tbs, cfg)
+    try:
+        answers = []
+        with numpy.errstate(all="ignore"):
+            for st in case["requests"]:
+                try:
+                    if st[0] == "set":
+                        vals = [float("nan") if h == "nan" else float.fromhex(h) for h in st[2]]
+                        sim.set_input("x", st[1], numpy.array(vals, dtype=numpy.float32))
+                        a = None
+                    else:
+                        arr = sim.calculate(st[1], st[2]) if st[0] == "calc" else sim.get_array(st[1], st[2])
+                        a = None if arr is None else [_canon(v) for v in numpy.asarray(arr).tolist()]
+                except Exception as ex:  # noqa: BLE001
+                    a = Err(errkind(ex), f"{type(ex).__name__}: {ex}"[:200])
+                answers.append([a, len(sim.tracer.stack)])
+        return {"cfg": cfg, "answers": answers}
+    finally:
+        cleanup_free(sim)
+
+
+def float_oracle(case, obs):
+    runs = obs["float"]
+    plain = runs[0]
+    last = {}
+    for k, st in enumerate(case["requests"]):
+        if st[0] == "set":
+            last[st[1]] = st[2]
+        for run in runs:
+            a, depth = run["answers"][k]
+            if depth != 0:
+                return f"stack: evaluation stack not empty after step {k} {st} under {run['cfg']}: depth {depth}"
+            if not same_answer(a, plain["answers"][k][0]):
+                return (f"answers: step {k} {st} gives {a!r} under {run['cfg']} and {plain['answers'][k][0]!r} under "
+                        f"the plain configuration (same stores, memory or disk; floats in hex, the sign of zero counts)")
+            if st[0] != "set" and st[1] == "x" and st[2] in last and a != last[st[2]]:
+                return f"float-value: step {k} {st} gives {a!r} under {run['cfg']}; the last array written is {last[st[2]]}"
+    return None
+
+
 def generate(rng, tier):
     n = {"quick": 320, "escalated": 800, "thorough": 5000}[tier]
     return [gen_one(rng, k) for k in range(n)]
@@ -695,10 +837,11 @@ def run_cfg(case, cfg):
                 raise
             except Exception as e:  # noqa: BLE001
                 a = Err(errkind(e), f"{type(e).__name__}: {e}"[:200])
-            reqs.append([a, len(sim.tracer.stack), rules.cache_obs(sim, sys)])
+            reqs.append([a, len(sim.tracer.stack)])
             extra.append({"rec_depth": len(rec.stack),
                           "cursor_none": (getattr(sim.tracer, "_current_node", None) is None)})
         out = {"cfg": cfg, "reqs": reqs, "extra": extra, "recorded": [ser_recorded(n) for n in rec.roots],
+               "cache": rules.cache_obs(sim, sys),       # holders' content after the last request
                "disk_entries": sum(len(h._disk_storage.get_known_periods())
                                    for h in (sim.get_holder(f"v{i}") for i in range(len(sys["vars"])))
                                    if h._disk_storage)}
@@ -724,6 +867,8 @@ def run_impl(case):
         warnings.simplefilter("ignore")
         if case.get("kind") == "enum":
             return {"enum": [run_enum_cfg(case, cfg) for cfg in case["cfgs"]]}
+        if case.get("kind") == "float":
+            return {"float": [run_float_cfg(case, cfg) for cfg in case["cfgs"]]}
         try:
             return {"runs": [run_cfg(case, cfg) for cfg in case["cfgs"]]}
         except rules.Inexact:
@@ -736,7 +881,7 @@ def run_impl(case):
 # ---------------------------------------------------------------------------------------
 
 def coq_case(case):
-    if _key(case) in _SKIP or case.get("kind") == "enum":
+    if _key(case) in _SKIP or case.get("kind") in ("enum", "float"):
         return "CSkip17"
     n = len(case["sys"]["vars"])
     cfgs = clist([f"({cbool(c.get('trace'))}, {clist([cbool(rules.nostore(c, i)) for i in range(n)])})"
@@ -755,7 +900,7 @@ def final_cache(run):
     """holders' content after the last request; a key present in both the memory and the disk
     store of a holder is listed twice by get_known_periods (the memory value is the one read)"""
     out = []
-    for e in (run["reqs"][-1][2] if run["reqs"] else []):
+    for e in run["cache"]:
         if not out or out[-1][0] != e[0]:
             out.append(e)
     return out
@@ -766,8 +911,8 @@ def obs_for_coq(case, obs):
     keys of the trees that print to them (a text that no node prints to is kept and never matches)"""
     if obs == "skip" or isinstance(obs, Err):
         return obs
-    if case.get("kind") == "enum":
-        return "skip"            # no engine model for Enum values: oracle only
+    if case.get("kind") in ("enum", "float"):
+        return "skip"            # no engine model for Enum values / signed zeros, inf, NaN: oracle only
     out = []
     for run in obs["runs"]:
         if run["cfg"].get("trace"):
@@ -777,6 +922,8 @@ def obs_for_coq(case, obs):
                     a, b = flat_key_text(n[0])
                     keys.setdefault(a if n[0][0] < len(case["sys"]["vars"]) else b, n[0])
             flat = [[keys.get(k, k), [keys.get(d, d) for d in deps], val] for k, deps, val in run["flat"]]
+            if len(run["trees"]) > 1000:
+                flat = None          # Corr_C17.run_cfg leaves the flat trace out beyond 1000 trees
             out.append([[o[:2] for o in run["reqs"]], final_cache(run), [run["trees"], flat, run["open"]]])
         else:
             out.append([[o[:2] for o in run["reqs"]], final_cache(run), None])
@@ -980,13 +1127,15 @@ def oracle(case, obs):
         return f"driver: the case could not be run: {obs.kind} {obs.msg}"
     if case.get("kind") == "enum":
         return enum_oracle(case, obs)
+    if case.get("kind") == "float":
+        return float_oracle(case, obs)
     runs = obs["runs"]
     plain = runs[0]
     nvars = len(case["sys"]["vars"])
     for run in runs:
         cfg = run["cfg"]
         # stack empty after every top-level request, successful or not
-        for k, (a, depth, _cache) in enumerate(run["reqs"]):
+        for k, (a, depth) in enumerate(run["reqs"]):
             if depth != 0:
                 return f"stack: evaluation stack not empty after request {k} {case['requests'][k]} under {cfg}: depth {depth}"
             if not run["extra"][k]["cursor_none"]:
@@ -1041,9 +1190,11 @@ def nontrivial(case, obs):
         return False
     if case.get("kind") == "enum":
         return any(isinstance(a, list) and any(x >= 128 for x in a) for a, _ in obs["enum"][0]["answers"])
+    if case.get("kind") == "float":
+        return any(isinstance(a, list) and any(h.startswith("-0x0.0") for h in a) for a, _ in obs["float"][0]["answers"])
     runs = obs["runs"]
-    formula_ran = any(t["children"] or t["reads"] for t in runs[0]["recorded"]) or any(
-        len(o[2]) > sum(1 for r in case["requests"] if r[0] == "set") for o in runs[0]["reqs"])
+    formula_ran = any(t["children"] or t["reads"] for t in runs[0]["recorded"]) or (
+        len(runs[0]["cache"]) > sum(1 for r in case["requests"] if r[0] == "set"))
     differs = False
     for run in runs[1:]:
         cfg = run["cfg"]
@@ -1051,7 +1202,7 @@ def nontrivial(case, obs):
             differs = True
         if run["disk_entries"]:
             differs = True
-        if any(len(a[2]) != len(b[2]) for a, b in zip(run["reqs"], runs[0]["reqs"])):
+        if len(final_cache(run)) != len(final_cache(runs[0])):
             differs = True
     return bool(formula_ran and differs)
 
@@ -1061,8 +1212,8 @@ def classify(case, obs):
         return "skipped-inexact"
     if isinstance(obs, Err):
         return "driver-error"
-    if case.get("kind") == "enum":
-        return "enum (oracle only)"
+    if case.get("kind") in ("enum", "float"):
+        return case["kind"] + " (oracle only)"
     kinds = sorted({o[0].kind for o in obs["runs"][0]["reqs"] if isinstance(o[0], Err)})
     tag = case.get("stream", "?") + ("" if rules.is_ranked(case["sys"]) else "/self-dependent") + (
         "" if model_ranked(case["sys"]) or not rules.is_ranked(case["sys"]) else "/eternal-formula")
@@ -1071,6 +1222,8 @@ def classify(case, obs):
 
 def shrink(case, still_fails):
     """drop configurations, then requests, then variables' formulas while the failure remains"""
+    if len(case.get("requests", [])) > 400:
+        return None                      # scale cases are reported as they are
     cur = json.loads(json.dumps(case))
     changed = True
     budget = 150
